@@ -40,6 +40,7 @@ def strategy(draw, tier="quick"):
         "ua": ua,
         "ub": ub,
         "union_on": draw(st.sampled_from(["arbitrary", "ab", "mixed"])),
+        "reuse": draw(st.booleans()),
     }
 
 
@@ -47,7 +48,7 @@ def _ivs(lst):
     return [(e["s"], e["s"] + e["d"]) for e in lst]
 
 
-def check_intersection(a, b):
+def check_intersection(a, b, reuse=False):
     from aw_core.models import Event
     from aw_transform import filter_period_intersect
 
@@ -77,6 +78,26 @@ def check_intersection(a, b):
         missing = list((exp - got).elements())
         extra = list((got - exp).elements())
         raise Violation(f"filter_period_intersect(a={a}, b={b}): missing pieces {missing}, unexpected pieces {extra}")
+    # the same list OBJECTS again, with other contents of the same length: a call is judged on its arguments' values
+    if reuse and len(b) >= 1:
+        b2 = [dict(e, s=e["s"] + 1) for e in b]  # shifted as a whole: still internally non-overlapping
+        fresh = iv.to_events(b2, Event)
+        eb[:] = fresh
+        with sut("filter_period_intersect (list object reused with new contents)"):
+            out2 = filter_period_intersect(ea, eb)
+        exp2 = Counter()
+        for x in a:
+            for y in b2:
+                s_, e_ = max(x["s"], y["s"]), min(x["s"] + x["d"], y["s"] + y["d"])
+                if e_ > s_:
+                    exp2[(s_, e_, x["l"], x["id"])] += 1
+        got2 = Counter()
+        for o in out2:
+            s_, e_ = iv.from_event(o)
+            if e_ > s_:
+                got2[(s_, e_, o.data.get("l"), o.id)] += 1
+        if got2 != exp2:
+            raise Violation(f"filter_period_intersect called again with the same list object holding new contents (a={a}, b={b2}, before b={b}): missing {list((exp2 - got2).elements())}, unexpected {list((got2 - exp2).elements())}")
     total = sum(e - s for (s, e, _, _), n in got.items() for _ in range(n))
     pos_a = [p for p in _ivs(a) if p[1] > p[0]]
     pos_b = [p for p in _ivs(b) if p[1] > p[0]]
@@ -110,7 +131,7 @@ def check_union(a, b):
 
 def run_case(case):
     a, b = case["a"], case["b"]
-    check_intersection(a, b)
+    check_intersection(a, b, reuse=case.get("reuse", False))
     if case["union_on"] == "arbitrary":
         ua, ub = case["ua"], case["ub"]
     elif case["union_on"] == "ab":
@@ -146,7 +167,7 @@ def run_case(case):
 # ---------------------------------------------------------------------------
 # exhaustive small scope: EVERY pair of non-overlapping lists on a tiny grid (no sampling)
 
-EXHAUSTIVE_NOTE = "extra phase 'small_scope': filter_period_intersect on every pair of internally non-overlapping lists of <= N events with integer ms edges in [0, G] (quick G=4,N=3: 87 616 pairs; thorough G=5,N=4: 3 598 609 pairs) and period_union on every pair of arbitrary lists of <= 2 intervals on [0, 4] (58 081 pairs)"
+EXHAUSTIVE_NOTE = "extra phase 'small_scope': filter_period_intersect on every pair of internally non-overlapping lists of <= N events with integer ms edges in [0, G] incl. lists with a zero-length event on the start edge of the event listed before it (quick G=4,N=3; thorough G=5,N=4) and period_union on every pair of arbitrary lists of <= 2 intervals on [0, 4] (58 081 pairs)"
 
 
 def extra_phases(tier, seed, jobs):
@@ -160,7 +181,7 @@ def _evs(layout, with_ids):
 
 def phase_small_scope(task):
     st_ = Stats()
-    lay = iv.all_layouts(task["grid"], task["max_n"])
+    lay = iv.all_layouts(task["grid"], task["max_n"], zero_on_start=True)
     for a in iv.shard(lay, task["i"], task["n"]):
         ea = _evs(a, True)
         for b in lay:
